@@ -504,17 +504,17 @@ class DesMasterKeyKind(CallKind):
         for r in range(16):
             yield one('0101010101010101', r)
             yield one('fefefefefefefefe', r)
-        for r in ((2, 7, 9, 14) if quick else range(16)):
+        for r in ((2, 13) if quick else range(16)):
             yield one('0000000000000000', r)
             yield one('ffffffffffffffff', r)
-        for _ in range(4 if quick else 32):
+        for _ in range(2 if quick else 32):
             yield one(rng.choice(DES_ZERO_VARIANTS), rng.randint(0, 15))
             yield one(rng.choice(DES_ONES_VARIANTS), rng.randint(0, 15))
         for i, k in enumerate(DES_WEAK[2:] + DES_SEMI_WEAK):
             for r in ([(5 * i + 3) % 16] if quick else range(16)):
                 yield one(k, r)
         # every one of the 16 round keys of random keys (quick: one key, plus four rounds of the classic key)
-        for r in ((0, 5, 10, 15) if quick else range(16)):
+        for r in ((0, 15) if quick else range(16)):
             yield one(DES_CLASSIC, r)
         for k in [rand_hex(rng, 8) for _ in range(1 if quick else 8)]:
             for r in range(16):
